@@ -139,6 +139,7 @@ const (
 	readAll = iota
 	readK
 	readNone
+	readCopy // the backend hands the reader to io.Copy (which prefers the source's WriteTo, if it has one)
 )
 
 // ConnBackendPlan scripts the backend for one connection.
@@ -466,6 +467,17 @@ func (ev *BEvent) consume(r io.Reader, p *DataPlan) {
 	if p.ReadMode == readNone {
 		return
 	}
+	if p.ReadMode == readCopy {
+		_, err := io.Copy(evWriter{ev}, r)
+		if err != nil {
+			ev.Terminal = err.Error()
+			ev.termErr = err
+		} else {
+			ev.Terminal = "EOF"
+			ev.SawEOF = true
+		}
+		return
+	}
 	i := 0
 	for {
 		if p.ReadMode == readK && len(ev.Read) >= p.ReadK {
@@ -534,6 +546,14 @@ func (ev *BEvent) consume(r io.Reader, p *DataPlan) {
 			return
 		}
 	}
+}
+
+// evWriter collects what io.Copy hands over.
+type evWriter struct{ ev *BEvent }
+
+func (w evWriter) Write(b []byte) (int, error) {
+	w.ev.Read = append(w.ev.Read, b...)
+	return len(b), nil
 }
 
 func (s *simSession) Data(r io.Reader) error {
